@@ -344,3 +344,93 @@ class ParserFeed(ProducerContract):
         if k == 1:
             return LoopSpec(inv=inv1, modifies=mods1)
         return None
+
+
+# ------------------------------------------------------------------------------- consumer view
+# Parser.feed composed with a concrete parse(): the coroutine protocol was verified from both
+# sides against the same receives-clause (here: Parser.feed delivers exactly the requested bytes;
+# contracts/frame_parser.py: given exactly those bytes, parse yields the RFC decoding of them), so
+# what a caller of frame_parser.feed(data) sees is the product of the two step machines.  The
+# composition itself is the generator meta-rule of DESIGN 2.2 / 4 E (listed as an assumption).
+from lomond.frame_parser import FrameParser, ClientFrameParser          # noqa: E402
+from lomond.frame import Frame, CompressedFrame                           # noqa: E402
+from lomond import errors                                                  # noqa: E402
+from spec import rfc6455                                                   # noqa: E402
+
+
+def hp(st):
+    """ghost: the parser has handed on the HTTP header block"""
+    if 'hp' not in st.ghost:
+        st.ghost['hp'] = fresh('hp0', B)
+    return st.ghost['hp']
+
+
+def frame_guarantee(ip, parser, f):
+    """what every frame handed on by a (Client)FrameParser satisfies - the yield-8 obligations of
+    FrameParser.parse"""
+    st = ip.st
+    g = lambda n: iv(st.get(f, n))
+    comp = st.get(parser, '_compression')
+    comp = BoolVal(comp) if isinstance(comp, bool) else comp
+    p = ip.bytes_of(st.get(f, 'payload'))
+    m = st.get(f, 'mask')
+    client = issubclass(st.obj(parser).cls, ClientFrameParser)
+    return [('acceptable-header', rfc6455.valid_server_header(g('fin'), g('rsv1'), g('rsv2'), g('rsv3'), g('opcode'),
+                                                               If(BoolVal(m) if isinstance(m, bool) else m, IntVal(1), IntVal(0)) if client else IntVal(0),
+                                                               p.n, comp)),
+            ('flag-bits', And(*[Or(g(n) == 0, g(n) == 1) for n in ('fin', 'rsv1', 'rsv2', 'rsv3')])),
+            ('opcode-4-bits', And(g('opcode') >= 0, g('opcode') < 16))]
+
+
+def ParserFeed_yields(self, ip, a):
+    st = ip.st
+    cls = st.obj(a.self).cls
+    if not issubclass(cls, FrameParser):
+        return self.other_yields(ip, a)
+
+    def make_header(ip, a, g):
+        b = mk(ip, T.Bytes(BYTEARRAY), 'header_block')
+        n = ip.bytes_of(b).n
+        st.assume(n >= 4, n <= 16 * 1024)
+        return b
+
+    def after_header(ip, a, g, v):
+        ip.st.ghost['hp'] = BoolVal(True)
+
+    def make_frame(ip, a, g):
+        fc = ip.st.get(a.self, '_frame_class')
+        f = mk(ip, T.Obj(fc, opcode=T.Int(0, 15), payload=T.Bytes(BYTEARRAY), fin=T.Int(0, 1), rsv1=T.Int(0, 1), rsv2=T.Int(0, 1),
+                         rsv3=T.Int(0, 1), mask=T.Const(False), masking_key=T.Const(None)), 'frame')
+        return f
+    ph = st.get(a.self, 'parse_headers')
+    ph = BoolVal(ph) if isinstance(ph, bool) else ph
+    return [
+        YieldSpec('header-block', [0], make=make_header, when=lambda ip, a, g: And(ph, Not(hp(ip.st))), after=after_header,
+                  guarantee=lambda ip, a, g, v: [('is-bytearray', BoolVal(isinstance(v, MRef)))]),
+        YieldSpec('frame', [0], make=make_frame, when=lambda ip, a, g: Or(Not(ph), hp(ip.st)),
+                  guarantee=lambda ip, a, g, v: frame_guarantee(ip, a.self, v)),
+    ]
+
+
+def ParserFeed_p_raises(self, ip, a, old, g):
+    cls = ip.st.obj(a.self).cls
+    if issubclass(cls, FrameParser):
+        return [Raises(P.ParseError, 'parse-error(eof / header too long / invalid utf-8)', when=None),
+                Raises(errors.ProtocolError, 'protocol-error(unacceptable frame header)', when=None)]
+    return self.other_raises(ip, a, old, g)
+
+
+def ParserFeed_other_yields(self, ip, a):
+    raise Unsupported('Parser.feed on %s: no composed contract' % ip.st.obj(a.self).cls.__name__)
+
+
+def ParserFeed_other_raises(self, ip, a, old, g):
+    return []
+
+
+ParserFeed.yields = ParserFeed_yields
+ParserFeed.p_raises = ParserFeed_p_raises
+ParserFeed.other_yields = ParserFeed_other_yields
+ParserFeed.other_raises = ParserFeed_other_raises
+ParserFeed.start_requires = lambda self, ip, a: []
+ParserFeed.p_modifies = lambda self, ip, a: []
